@@ -305,8 +305,16 @@ class ExactGP(GP):
                         GPInputWarning,
                     )
 
+            # The strategy class and the train covariance it caches depend on these settings (the class is chosen
+            # from the lazy or evaluated train covariance; InducingPointKernel adds its diagonal correction to it),
+            # so a strategy created under other values must not be reused
+            strategy_settings = (settings.lazily_evaluate_kernels.on(), settings.sgpr_diagonal_correction.on())
+            if getattr(self, "_strategy_settings", strategy_settings) != strategy_settings:
+                self.prediction_strategy = None
+
             # Get the terms that only depend on training data
             if self.prediction_strategy is None:
+                self._strategy_settings = strategy_settings
                 train_output = super().__call__(*train_inputs, **kwargs)
 
                 # Create the prediction strategy for
